@@ -73,9 +73,17 @@ IdsOK == /\ \A i \in Nodes : SeqSet(Tr.adj0[i]) \subseteq Nodes /\ SeqSet(Tr.adj
 GraphOK == /\ \A i \in Nodes : K!ArcsOK(Dd, i, Tr.adj0[i], Tr.k)
            /\ \A j \in Nodes : adj[j] \subseteq adj0[j] \cup Plateau(j, adj0, Dens)
 QFun(qi) == [t \in Nodes |-> Tr.q[qi].dx[t]]
-\* a recorded prediction is admissible under at least one admitted form of the query density
-PredOK(qi) == \E f \in 1..Len(Tr.q[qi].rho) :
-                 <<Tr.q[qi].res, Tr.q[qi].cl>> \in {<<pr[1], IF IsUnsup THEN pr[2] ELSE -1>> : pr \in AdmissibleK(QFun(qi), Tr.q[qi].rho[f], Tr.k)}
+\* Admitted forms of the query density (fixed positions in Tr.q[qi].rho): divisor k or k+1, range with or
+\* without EPSILON.  ONE form must explain ALL predictions of the fitted model: the model computes the density
+\* of every query by the same formula from its k nearest distances.  (-7777777 = form not evaluable.)
+PredOKForm(qi, f) == /\ Tr.q[qi].rho[f] # -7777777
+                     /\ <<Tr.q[qi].res, Tr.q[qi].cl>> \in
+                           {<<pr[1], IF IsUnsup THEN pr[2] ELSE -1>> : pr \in AdmissibleK(QFun(qi), Tr.q[qi].rho[f], Tr.k)}
+\* positions: 1 = sum/k with EPSILON in the range (as coded), 2 = sum/(k+1) with EPSILON, 3 = sum/k, 4 = sum/(k+1).
+\* Admitted: the mean over exactly the k nearest distances (1, 3).  The k+1 divisor is NOT admitted: a value that
+\* mixes in a (k+1)-th distance lies between forms 1 and 2 and would otherwise be explained away (seed C14).
+AdmittedForms == {1, 3}
+AllPredOK == Len(Tr.q) = 0 \/ \E f \in AdmittedForms : \A qi \in 1..Len(Tr.q) : PredOKForm(qi, f)
 b(cond, name) == IF cond THEN {} ELSE {name}
 Bad ==
   IF ~IdsOK THEN {<<"C13", "recorded_id_not_a_sample">>} ELSE
@@ -92,7 +100,7 @@ Bad ==
   \cup b(IsUnsup => C13count, <<"C13", "n_clusters_is_not_number_of_roots">>)
   \cup b(IsUnsup => C13ids, <<"C13", "root_cluster_ids_not_0_to_n_minus_1">>)
   \cup b((~IsUnsup) => \A s \in Nodes : plab[s] = L[s], <<"C04", "knn_training_sample_lost_own_label">>)
-  \cup b(\A qi \in 1..Len(Tr.q) : PredOK(qi), <<"C14", "prediction_not_label_of_a_max_min_neighbour">>)
+  \cup b(AllPredOK, <<"C14", "prediction_not_label_of_a_max_min_neighbour">>)
 
 ASSUME /\ TLCSet(1, {}) /\ TLCSet(2, {}) /\ TLCSet(3, {}) /\ TLCSet(6, {})
 Add(r, x) == TLCSet(r, TLCGet(r) \cup {x})
